@@ -229,6 +229,60 @@ pub fn events(args: &[String]) {
             }
         }
     }
+    // an event function that is exactly zero at the start (the run begins on the event surface): whatever is reported, the
+    // recorded state must be the continuous solution at the recorded time
+    {
+        let mut n = 0;
+        for method in ALL_METHODS {
+            for xend in [2.0, -2.0] {
+                let mut p = Prob::new(Kind::Harmonic);
+                p.events = vec![EventSpec { a: 0.0, b: vec![0.0, 1.0], c: 0.0, dir: 0, terminal: None }];
+                let mut o = Options::builder().method(method).rtol(1e-6).atol(1e-9).dense_output(true).build();
+                if method == Method::RK4 { o.first_step = Some(xend / 100.0); }
+                let mut why = String::new();
+                match solve_ivp(&p, 0.0, xend, &p.y0(), o) {
+                    Ok(sol) => {
+                        for (te, ye) in sol.t_events[0].iter().zip(sol.y_events[0].iter()) {
+                            match sol.sol(*te) {
+                                Ok(v) => if !close(&v, ye, 1e-7) && why.is_empty() { why = format!("event at t = {}: recorded state {:?} but the continuous solution there is {:?}", te, ye, v); },
+                                Err(_) => {}
+                            }
+                        }
+                    }
+                    Err(e) => why = format!("solve_ivp error {:?}", e),
+                }
+                println!("{{\"kind\":\"ev\",\"case\":{},\"problem\":\"Harmonic\",\"method\":\"{}\",\"x0\":0,\"xend\":{},\"branch\":\"start-on-surface\",\"finding_key\":\"{}\",\"ok\":{},\"why\":{:?}}}",
+                    610000 + n, method_name(method), xend, if why.is_empty() { "" } else { "c08-state" }, why.is_empty(), why);
+                n += 1;
+            }
+        }
+    }
+    // the location of an event must not depend on the scale of the event function: g = s (t - c) for tiny and large s
+    {
+        let mut n = 0;
+        for method in ALL_METHODS {
+            for sc in [1e-13, 1e-12, 1e-9, 1.0, 1e6] {
+                for xend in [3.0, -3.0] {
+                    let mut p = Prob::new(Kind::Harmonic);
+                    let c0 = 0.5137 * xend;
+                    p.events = vec![EventSpec { a: sc, b: vec![0.0; p.n()], c: sc * c0, dir: 0, terminal: None }];
+                    let o = Options::builder().method(method).rtol(1e-5).atol(1e-8).build();
+                    let mut why = String::new();
+                    match solve_ivp(&p, 0.0, xend, &p.y0(), o) {
+                        Ok(sol) => {
+                            let te = &sol.t_events[0];
+                            if te.len() != 1 { why = format!("g = {:e} (t - {}): {} events reported, expected exactly one", sc, c0, te.len()); }
+                            else if (te[0] - c0).abs() > 1e-9 * (1.0 + c0.abs()) { why = format!("g = {:e} (t - {}): event located at t = {}, {:.3e} away from the root", sc, c0, te[0], (te[0] - c0).abs()); }
+                        }
+                        Err(e) => why = format!("solve_ivp error {:?}", e),
+                    }
+                    println!("{{\"kind\":\"ev\",\"case\":{},\"problem\":\"Harmonic\",\"method\":\"{}\",\"x0\":0,\"xend\":{},\"scale\":{:e},\"branch\":\"scaled-event\",\"finding_key\":\"{}\",\"ok\":{},\"why\":{:?}}}",
+                        600000 + n, method_name(method), xend, sc, if why.is_empty() { "" } else { "c09-event-scale" }, why.is_empty(), why);
+                    n += 1;
+                }
+            }
+        }
+    }
 }
 
 pub fn teval(args: &[String]) {
